@@ -41,6 +41,7 @@ static expect_t expect_extension(int ext, int anchor_hash_ok) {
 		case FXE_OTHER_INPUT: e.cls = X_NOT_OK; break;   /* root differs as well: PUB-01 or PUB-03, whichever is evaluated first */
 		case FXE_OTHER_AGGR_TIME: e.cls = X_NOT_OK; break; /* refused as a failed extension or reported as PUB-02 */
 		case FXE_RIGHT_EXTRA: case FXE_RIGHT_EXTRA_TOP: e.cls = X_NOT_OK; break;   /* other root, other shape: a refused extension or a contradiction */
+		case FXE_NO_AGGR_TIME_FIELD: e.cls = X_NOT_OK; break;   /* a chain for another aggregation time (its publication time): refused or PUB-02 */
 		default: e.cls = X_INCONCLUSIVE; break;           /* error status, error PDU, bad MAC, wrong id, no reply */
 	}
 	return e;
@@ -308,6 +309,7 @@ static void calendar_case(int form, int broken, int ext) {
 			break;
 		case FXE_OTHER_INPUT: e.cls = X_NOT_OK; break;                   /* CAL-02, or CAL-01 first when a publication record pins the root */
 		case FXE_OTHER_AGGR_TIME: e.cls = X_NOT_OK; break;               /* refused as failed extension or CAL-03 */
+		case FXE_NO_AGGR_TIME_FIELD: e.cls = X_NOT_OK; break;            /* the reply's aggregation time defaults to its publication time: not the signature's */
 		case FXE_RIGHT_EXTRA: case FXE_RIGHT_EXTRA_TOP:
 			/* surplus right link: right links differ (CAL-04), root differs, or the extension is refused. A signature without a calendar
 			 * chain has no right links and no root to compare: the statement is silent about the (malformed) shape of such a reply */
